@@ -246,7 +246,13 @@ int main(int argc, char** argv)
     } else if (variant == "range") {
       reals = { "range/short", "range/long" };
     } else {
+#ifdef VM_GRANT_DENY
+      // backend with the grant / deny interface that REFUSES the request: the result must still be
+      // an application-memory snapshot
+      reals = { "deny_access(refused)/char" };
+#else
       reals = { "array/int", "struct", "deny_access/char" };
+#endif
     }
     for (auto& real : reals) {
       for (auto& w : g_writes) {
@@ -352,7 +358,9 @@ int main(int argc, char** argv)
           char* got = copy_memory_or_deny_access(*sb, p, (size_t)n, false, copied);
           if (got) {
             observe(e, got, n, got);
-            std::free(got);
+            if (in_app(got)) {
+              std::free(got); // (a buffer that is not in application memory is not ours to free)
+            }
           } else {
             outc = "null";
           }
@@ -369,7 +377,9 @@ int main(int argc, char** argv)
       out.put(e);
     }
   }
+#ifndef VM_GRANT_DENY
   pcell_tests();
+#endif
   sandbox.destroy_sandbox();
   out.close();
   return 0;
